@@ -21,6 +21,7 @@ PLAN = {
     # undecided, or could not be extracted; a FAILING witness confirms a violation, a passing one changes nothing
     "witnesses": [
         {"match": r"(Allowlist|fn register_|with_enhanced_key|label_filter)", "name": "label filters / register_*", "src": "witness_filters.rs", "crate": "metrics-tracing-context", "file": "metrics-tracing-context/src/lib.rs"},
+        {"match": r"(fn on_new_span|fn on_record|MetricsLayer)", "name": "impl Layer for MetricsLayer :: fn on_new_span", "src": "witness_span_tree.rs", "crate": "metrics-tracing-context", "file": "metrics-tracing-context/src/lib.rs"},
         {"match": r"fn enhance_key", "src": "witness_enhanced.rs", "crate": "metrics-tracing-context", "file": "metrics-tracing-context/src/lib.rs"},
     ],
     "verus": [
